@@ -14,6 +14,7 @@ import IgVerif.Model.Scope
 import IgVerif.Model.Traits
 import IgVerif.Model.Scan
 import IgVerif.Model.Determinism
+import IgVerif.Model.Macro
 /-! `igdriver <model>`: reads one op per line on stdin, prints one answer per line.
 Byte strings are hex ("-" = empty). -/
 open IgVerif
@@ -644,6 +645,14 @@ def detStep (_ : Unit) (toks : List String) : IO (Unit × String) := do
     return ((), toString (Det.fileId s (parseInt now)))
   | _ => return ((), "bad-op")
 
+/-! ### macro -/
+def macroStep (_ : Unit) (toks : List String) : IO (Unit × String) := do
+  match toks with
+  | ["stringify", h] =>
+    let src := unhex h
+    return ((), s!"wl={b01 (Mac.wellLexed Mac.SState.init src)} {hex (Mac.stringify src)}")
+  | _ => return ((), "bad-op")
+
 def main (args : List String) : IO UInt32 := do
   let stdin ← IO.getStdin
   match args with
@@ -660,4 +669,5 @@ def main (args : List String) : IO UInt32 := do
   | ["traits"] => loop stdin traitsStep (); return 0
   | ["scan"] => loop stdin scanStep (); return 0
   | ["det"] => loop stdin detStep (); return 0
+  | ["macro"] => loop stdin macroStep (); return 0
   | _ => IO.eprintln "usage: igdriver <model>"; return 2
